@@ -210,10 +210,27 @@ def labels_obligation(prop, floor=0):
                     ctx.finding(e.fn, e.node, f"{what} combines two pandas objects whose row labels differ ({_labtxt(e.extra['left'])} vs "
                                 f"{_labtxt(e.extra['right'])}): pandas pairs the rows by label, not by position, so for a table whose index is not "
                                 "0..n-1 (after a selection, a sort, a concat) values land in the wrong rows or become NaN", e.node, m)
+        # E6 at stores: a column computed in one row space (one selection / order of particles) stored into a table in another
+        for it in its:
+            for e in it.events:
+                if e.kind != "space-mismatch" or e.name != "store":
+                    continue
+                k = (e.fn, id(e.node), "space")
+                if k in seen:
+                    continue
+                seen.add(k)
+                try:
+                    m, _ = ctx.prog.func(e.fn)
+                except Exception:  # noqa
+                    m = None
+                ctx.count(1, None)
+                ctx.finding(e.fn, e.node, f"values computed for the rows of '{e.extra['value_space'].chain()}' are stored into the table "
+                            f"'{e.extra['frame_space'].chain()}' (columns {e.extra.get('names')}): the two are different selections / orders of the "
+                            "particles, so values are paired with the wrong particles", e.node, m)
         ctx.count(len(its), None)
 
-    return Obligation("OX.L", "row-label alignment: arithmetic and column assignment between labelled tables/columns pair the same particles "
-                              "(E11, over every function interpreted for this property)", run, floor=floor)
+    return Obligation("OX.L", "row pairing: arithmetic and column assignment between labelled tables/columns pair the same particles (E11 labels, "
+                              "E6 row spaces; over every function interpreted for this property)", run, floor=floor)
 
 
 def _labtxt(k):
